@@ -11,5 +11,5 @@ Separate Extraction
   crypt_sample_cenc crypt_sample_cbcs
   aes128_encrypt aes128_decrypt
   senc saiz enc_sample senc_of saiz_of senc_empty saiz_empty increment_iv pad_iv saio_offset
-  sizing sample_sizes split_samples senc_calc_size senc_encode saiz_encode saio_encode senc_parse traf_senc
+  sizing sample_sizes split_samples senc_calc_size senc_encode saiz_encode saio_encode senc_parse traf_senc senc_of_r
   Z.of_N.  (* Z.of_N only so that BinNums.coq_Z exists for ocaml/vx.ml *)
